@@ -1467,7 +1467,7 @@ func TestReplay(t *testing.T) {
 	}
 	c0, _ := verify(doc, withSigs)
 	c1, d1 := verify(mut, withSigs)
-	out := map[string]any{"source": src, "mutation": rp.Mutation, "original_verifies": c0, "mutated_verifies": c1, "detail": d1,
+	out := map[string]any{"source": src, "mutation": rp.Mutation, "original_verifies": c0, "mutated_verifies": c1, "detail": d1, "panic_probe": panicProbe(mut, isLock),
 		"orig_value": leafString(doc, rp.Mutation.Path), "new_value": leafString(mut, rp.Mutation.Path)}
 	_ = hx.WriteJSON("c12_replay.json", out)
 	fmt.Printf("c12 replay: %s %s %s %s: original=%s mutated=%s %s\n", src.Kind, src.Version, rp.Mutation.Path, rp.Mutation.Alt, c0, c1, d1)
